@@ -54,6 +54,9 @@ def gen_tree(rng):
         for _ in range(rng.choice([0, 0, 1, 2, 4])):
             k = rng.random()
             nm = rng.choice(["broken", "aaa", "zzz", "0", "x/y"]) + str(rng.randrange(100))
+            # one decoration per base name and directory: a file and a directory of the same name cannot coexist
+            if any(f[0].split(".")[0] == nm for f in files[r]):
+                continue
             if k < 0.5:
                 files[r].append((nm + rng.choice([".toml", ".TOML", ".Toml"]), "fail", None, rng.choice(BROKEN)))
             elif k < 0.8:
